@@ -64,11 +64,13 @@ def c01(tier):
              + mk("bus", 100 if q else 5000, s + 3, "default", n_ops=200, opts=dict(weights=w, colliding=40, n_peers=(3, 6)))
              + mk("bus", 50 if q else 3000, s + 4, "one", n_ops=70, opts=dict(weights=w))
              + mk("bus", 50 if q else 3000, s + 5, "wide", n_ops=70, opts=dict(weights=w))
-             + mk("bus", 50 if q else 2000, s + 6, "default", n_ops=70, opts=dict(weights=w), local_only=True))
+             + mk("bus", 50 if q else 2000, s + 6, "default", n_ops=70, opts=dict(weights=w), local_only=True)
+             # subscribers that read slowly (within the write buffer) and catch up: nothing may be lost on the way
+             + mk("slowsub", 120 if q else 4000, s + 7, "default") + mk("slowsub", 60 if q else 2000, s + 8, "smallbuf"))
     res = run_cases(cases)
     return report("C01", "exploration", res,
                   "random histories of add/remove/change/fetch/unfetch/get/connect/disconnect by 2-7 peers over raw, unix and WebSocket transports, random "
-                  "segmentation and epoll batching; every active fetch's replica (replayed add/change/remove stream) is compared with the reference model at "
+                  "segmentation and epoll batching, plus subscribers whose socket takes the daemon's output slowly (short writes, would-block, refills) without ever overflowing the write buffer; every active fetch's replica (replayed add/change/remove stream) is compared with the reference model at "
                   "every quiescent point and at the fetch response; distinct = (monitor, when, size class, rule kind, transport / response class) signatures observed",
                   t0, tier, SIM_ASSUME, min_events={"replica_checks_nonempty": 1000, "note_remove": 50, "note_change": 50, "resource_refusals": 1})
 
@@ -124,11 +126,14 @@ def c04(tier):
              + mk("cluster", 40 if q else 1500, s + 3, "default", cluster=(40, 2, "low"))
              + mk("cluster", 30 if q else 1000, s + 4, "default", cluster=(40, 2, "wrap"))
              + mk("cluster", 30 if q else 1000, s + 5, "default", cluster=(48, 3, "end")))
-    res = run_cases(cases)
+    # "a request that is answered with an error leaves everything as it was" also when the error is a failed allocation
+    nres, ncases = ns_allocfail_cases(tier, s)
+    res = nres + run_cases(cases + ncases)
     return report("C04", "exploration", res,
                   "random sequences of add/remove/change/set/call/get by several peers over path strings incl. empty, long, non-ASCII, hash-colliding ones and dense runs of neighbouring home buckets (fill until refused / thin out / refill, also across the end of the table) and "
                   "arbitrary JSON values; after every response the reference map predicts success/error (resource refusals only where a limit can be in play); a "
-                  "fetch-all observer's replica and get results are compared with the reference map at every quiescent point; distinct = (method, expected class, "
+                  "fetch-all observer's replica and get results are compared with the reference map at every quiescent point; plus one add / change / remove with allocation number n failing, for every n, "
+                  "read back through a fresh connection (an error answer must leave the element, its value and its kind untouched); distinct = (method, expected class, "
                   "observed class) and get/replica size signatures",
                   t0, tier, SIM_ASSUME, min_events={"get_checks": 1000, "responses": 20000})
 
@@ -188,8 +193,8 @@ def c16(tier):
     cases += mk("rules", 4 if q else 40, s + 3, "tiny", mode="bad")
     res = run_cases(cases)
     return report("C16", "exploration", res,
-                  "every single matcher x operand (41 adversarial strings: empty, prefixes/suffixes of each other, case variants, non-ASCII, longer than any path) x "
-                  "{no option, caseInsensitive true, false} evaluated by get/fetch against 40 paths (exhaustive in both tiers), "
+                  "every single matcher x operand (53 adversarial strings: empty, prefixes/suffixes of each other, case variants, non-ASCII, the bytes next to the ASCII letter blocks, longer than any path) x "
+                  "{no option, caseInsensitive true, false} evaluated by get/fetch against 52 paths (exhaustive in both tiers), "
                   "random rules of 2-6 matchers, ill-formed rules (unknown names incl. every near-miss of a matcher / option name: longer, shorter, other case, padded; mistyped operands, too many matchers, repeated option key); oracle: independent "
                   "Python matcher (byte-wise / ASCII case folding); refused rules must leave nothing registered; distinct = (matcher set, option) signatures",
                   t0, tier, SIM_ASSUME, extra_cov={"exhaustive": False, "single_matcher_product_exhaustive": True}, min_events={"get_checks": 300, "rule_path_evaluations": 10000})
@@ -302,6 +307,20 @@ def c07(tier):
 
 
 
+def ns_allocfail_cases(tier, s):
+    """one add / change / remove by the owner with allocation number n failing, for every n; read back through a fresh connection"""
+    q = tier == "quick"
+    variants = [(op, "raw") for op in ("add", "change", "remove")] + ([] if q else [(op, "ws") for op in ("add", "change", "remove")])
+    counting = [dict(kind="allocfail-ns", seed=s * 19 + i, config="default", params=dict(op=op, transport=t)) for i, (op, t) in enumerate(variants)]
+    cres = run_cases(counting)
+    cases = []
+    for r in cres:
+        for i in range(r.alloc_count or 0):
+            for cnt in ((1,) if q else (1, 2, 4)):
+                cases.append(dict(kind="allocfail-ns", seed=r.case["seed"], config="default", params=dict(r.case["params"], nth=i, count=cnt)))
+    return cres, cases
+
+
 def passwd_allocfail_cases(tier, s):
     """one authorised password change (own account / by an admin, raw / WebSocket) with allocation number n failing, for every n"""
     q = tier == "quick"
@@ -343,12 +362,13 @@ def c15(tier):
                               params=dict(script=r.case["params"]["script"], nth=rng.randrange(max(n, 1)), count=rng.choice([2, 2, 3, 5]))))
     cases += mk("reclaim", 60 if q else 2000, s + 30, "lowheap", mode="lowheap", n_ops=120)
     pres, pcases = passwd_allocfail_cases(tier, s)
-    res = cres + pres + run_cases(cases + pcases)
+    nres, ncases = ns_allocfail_cases(tier, s)
+    res = cres + pres + nres + run_cases(cases + pcases + ncases)
     return report("C15", "fault_enumeration", res,
                   "corpus of 8 scripted sessions (every request type, raw/unix/WebSocket handshakes, routed requests answered / timed out / orphaned by caller and "
                   "owner disconnects, fetch table growth, failed HTTP upgrades, fragmented and close frames); a clean run counts the N allocations of the script "
                   "(cjet_malloc/cjet_calloc incl. cJSON), then allocation number n fails for every n in 0..N-1 (thorough; every 2nd, offset by the seed, in quick) "
-                  "plus random 2-5 consecutive failures, plus an authorised password change (credential file in place) with every allocation failing once: answer, accepted credentials and file must agree (old XOR new), plus bus histories under a 256 KiB heap cap that ordinary adds reach; oracle: sanitizers, at most one response per request, only the connection whose processing hit the "
+                  "plus random 2-5 consecutive failures, plus an authorised password change (credential file in place) with every allocation failing once: answer, accepted credentials and file must agree (old XOR new), an add / change / remove with every allocation failing once: a fresh connection must read back what the answer said (refused = exactly as before), plus bus histories under a 256 KiB heap cap that ordinary adds reach; oracle: sanitizers, at most one response per request, only the connection whose processing hit the "
                   "failure may be dropped, a fresh connection is served normally afterwards, idle baseline after closing, clean SIGTERM exit with LeakSanitizer; "
                   "distinct = (script, transport of the victim) signatures; allocations counted: %d" % total,
                   t0, tier, SIM_ASSUME + ["only allocations through cjet_malloc/cjet_calloc (incl. cJSON hooks) are failed; zlib/websocket plain malloc is not used by the daemon's enabled features"],
